@@ -116,10 +116,24 @@ def analyze(fn_obj, qualname=None, cls=None):
                 return True
             if cal in RNG_MAKERS:
                 return any(derived_expr(a) for a in list(e.args) + [k.value for k in e.keywords])
+            return False
+        if isinstance(e, (ast.BinOp, ast.UnaryOp, ast.Subscript, ast.Tuple, ast.List, ast.IfExp)):
+            # a value computed from a derived value (seed+1, seeds[i], ...) is derived (conservative towards 'holds')
+            return any(derived_expr(x) for x in ast.iter_child_nodes(e) if isinstance(x, ast.expr))
         return False
 
+    # calls lexically inside the branch of `if <seed> is None:` (or the else-branch of `is not None`) run only when no seed was given
+    unseeded = set()
+    for n in ast.walk(fn):
+        if isinstance(n, ast.If) and isinstance(n.test, ast.Compare) and len(n.test.ops) == 1 and isinstance(n.test.comparators[0], ast.Constant) \
+                and n.test.comparators[0].value is None and isinstance(n.test.left, ast.Name) and n.test.left.id in seeds:
+            body = n.body if isinstance(n.test.ops[0], ast.Is) else (n.orelse if isinstance(n.test.ops[0], ast.IsNot) else [])
+            for st in body:
+                unseeded |= {id(x) for x in ast.walk(st)}
     for c in [n for n in ast.walk(fn) if isinstance(n, ast.Call)]:
         txt = _attr_text(c.func)
+        if id(c) in unseeded:
+            continue
         # (E3) draw from a derived generator
         if isinstance(c.func, ast.Attribute) and derived_expr(c.func.value):
             sites.append(Site(name, c.lineno, 'draw-from-derived-generator', txt, True))
